@@ -1,3 +1,125 @@
-UNITS = [dict(name='probe', driver='c18_adapters.cpp', roots=[r'^drv_'], names={}, types={}, boundary=[r'^std::atomic<bool>::wait', r'^std::atomic<bool>::notify', r'^std::deque<'],
-  lib=['rt_core.c', 'rt_atomic_seq.c'], spec=['C18/probe.c'], harness='h_probe')]
+# C18 - Callback adapters fire exactly once with the right outcome
+CBQ = 'cocls::future_with_cb<int, c18_cb>'
+CBSQ = 'cocls::custom_allocator_base<c18_storage, cocls::future_with_cb<int, c18_cb> >'
+TYPES = {'FUT': 'cocls::future<int>', 'FUTL': 'cocls::future<long>', 'FC': 'cocls::future_common', 'PROM': 'cocls::promise<int>', 'PROML': 'cocls::promise<long>',
+         'AWT': 'cocls::awaiter', 'SP': 'cocls::suspend_point<void>', 'SPB': 'cocls::suspend_point<bool>', 'EPTR': 'std::__exception_ptr::exception_ptr',
+         'CB': CBQ, 'CBS': CBSQ, 'CONVB': 'cocls::future_conv_promise_base<int, long>', 'HLP': 'cocls::future_conv_promise_base<int, long>::Hlp',
+         'FAC': 'c18_factory', 'CBT': 'c18_cb', 'OBJ': 'c18_obj', 'CTX': 'c18_ctx', 'STOR': 'c18_storage', 'ATOMB': 'std::atomic<bool>'}
+GLOBALS = {'AW_INSTANCE': '_ZN5cocls7awaiter8instanceE', 'AW_DISABLED': '_ZN5cocls7awaiter8disabledE', 'TI_AWAIT_CANCELED': '_ZTIN5cocls24await_canceled_exceptionE',
+           'TI_VALUE_NOT_READY': '_ZTIN5cocls25value_not_ready_exceptionE'}
+VT_CBS = {'VT_CBS': '_ZTVN5cocls21custom_allocator_baseI11c18_storageNS_14future_with_cbIi6c18_cbEEEE'}
+VT_CB = {'VT_CB': '_ZTVN5cocls14future_with_cbIi6c18_cbEE'}
+import re
+def rx(s): return re.escape(s).replace('\\ ', ' ')
+CBR = rx(CBQ); CBSR = rx(CBSQ)
+CFAR = r'cocls::call_fn_future_awaiter<&c18_obj::done>'
+CONVBR = r'cocls::future_conv_promise_base<int, long>'
+def conv_r(w): return r'cocls::future_conv<&' + {'m': r'c18_ctx::conv', 'f': r'\(c18_conv_free\(int&\)\)', 'p': r'c18_ctx::conv_p'}[w] + '>'
+LAM = r'::\{lambda\(cocls::awaiter\*, void\*\)#1\}::__invoke\(cocls::awaiter\*, void\*\)$'
+N = dict(
+    # environment / abstract callees
+    fc_subscribe=r'^cocls::future_common::subscribe\(cocls::awaiter\*\)$',
+    fac_call=r'^c18_factory::operator\(\)\(\)$',
+    user_cb=r'^c18_cb::operator\(\)\(cocls::future<int>&\)$',
+    st_alloc=r'^c18_storage::alloc\(unsigned long\)$', st_dealloc=r'^c18_storage::dealloc\(void\*, unsigned long\)$',
+    obj_done=r'^c18_obj::done\(cocls::future<int>&\)$',
+    ctx_conv=r'^c18_ctx::conv\(int&\)$', ctx_conv_p=r'^c18_ctx::conv_p\(int&, cocls::promise<long>&\)$', conv_free=r'^c18_conv_free\(int&\)$',
+    pl_call_val=r'^cocls::suspend_point<bool> cocls::promise<long>::operator\(\)<long>\(long&&\)$',
+    pl_call_exc=r'^cocls::suspend_point<bool> cocls::promise<long>::operator\(\)<std::__exception_ptr::exception_ptr>\(std::__exception_ptr::exception_ptr&&\)$',
+    pl_dtor=r'^cocls::promise<long>::~promise\(\)$',
+    ab_wait=r'^std::atomic<bool>::wait\(bool, std::memory_order\) const$',
+    sp_suspend_now=r'^cocls::suspend_point<void>::suspend_now\(\)$',
+    # functions under contract
+    cb_ctor='^' + CBR + r'::future_with_cb\(c18_cb&&\)$',
+    cb_ctor_fn='^' + CBR + r'::future_with_cb\(c18_cb&&\)$',
+    cbs_ctor_fn='^' + CBSR + r'::custom_allocator_base\(c18_cb&&\)$',
+    cb_invoke=r'^cocls::suspend_point<void> ' + CBR + r'::future_with_cb\(c18_cb&&\)::\{lambda\(cocls::awaiter\*, auto:1\)#1\}::__invoke<void\*>\(cocls::awaiter\*, void\*\)$',
+    make_promise=r'^cocls::promise<int> cocls::make_promise<int, c18_cb>\(c18_cb&&\)$',
+    make_promise_st=r'^cocls::promise<int> cocls::make_promise<int, c18_cb, c18_storage>\(c18_cb&&, c18_storage&\)$',
+    discard=r'^void cocls::discard<c18_factory>\(c18_factory&&\)$',
+    d_ctor=r'^cocls::discard<c18_factory>\(c18_factory&&\)::Awt::Awt\(c18_factory&&, bool&\)$',
+    d_fin=r'^cocls::discard<c18_factory>\(c18_factory&&\)::Awt::fin\(cocls::awaiter\*, void\*\)$',
+    d_dtor=r'^cocls::discard<c18_factory>\(c18_factory&&\)::Awt::~Awt\(\)$',
+    cfa_ctor='^' + CFAR + r'::call_fn_future_awaiter\(c18_obj&\)$',
+    cfa_shift=r'^void ' + CFAR + r'::operator<< <c18_factory>\(c18_factory&&\)$',
+    cfa_wakeup='^' + CFAR + r'::wakeup\(cocls::awaiter\*, void\*\)$',
+    cb_dtors='^' + CBR + r'::~future_with_cb\(\)$', cbs_dtors='^' + CBSR + r'::~custom_allocator_base\(\)$',
+    conv_shift=r'^cocls::future<long> ' + CONVBR + r'::operator<< <c18_factory>\(c18_factory&&\)$',
+    conv_call='^' + CONVBR + r'::operator\(\)\(cocls::promise<long>&&\)$',
+    hlp_shift=r'^void ' + CONVBR + r'::Hlp::operator<< <c18_factory>\(c18_factory&&\)$',
+    conv_m_ctor='^' + conv_r('m') + r'::future_conv\(c18_ctx\*\)$', conv_f_ctor='^' + conv_r('f') + r'::future_conv\(\)$', conv_p_ctor='^' + conv_r('p') + r'::future_conv\(c18_ctx\*\)$',
+    conv_m_invoke='^' + conv_r('m') + r'::future_conv\(c18_ctx\*\)' + LAM, conv_f_invoke='^' + conv_r('f') + r'::future_conv\(\)' + LAM, conv_p_invoke='^' + conv_r('p') + r'::future_conv\(c18_ctx\*\)' + LAM,
+)
+ABSTRACT = ('fc_subscribe', 'fac_call', 'user_cb', 'st_alloc', 'st_dealloc', 'obj_done', 'ctx_conv', 'ctx_conv_p', 'conv_free', 'pl_call_val', 'pl_call_exc', 'pl_dtor', 'ab_wait', 'sp_suspend_now')
+BASE_ABS = ('ab_wait', 'sp_suspend_now')
+def unit(name, alias, uses=(), extra_types=None, ptypes=None, extra_globals=None, extra_defines=(), extra_roots=(), **kw):
+    uses = tuple(uses) + BASE_ABS
+    names = {alias: N[alias]}; names.update({a: N[a] for a in uses if a not in ABSTRACT})
+    names_opt = {a: N[a] for a in uses if a in ABSTRACT}
+    ty = dict(TYPES); ty.update(extra_types or {})
+    g = dict(GLOBALS); g.update(extra_globals or {})
+    d = dict(name=name, driver='c18_adapters.cpp', roots=[N[alias]] + [N[r] for r in extra_roots], names=names, names_opt=names_opt, types=ty, globals=g, ptypes=ptypes or {},
+             boundary=[N[a] for a in uses if a in ABSTRACT], lib=['rt_core.c', 'rt_atomic_seq.c'], spec=['C18/c18_spec.h', 'C18/h_c18.c'], harness='h_' + name, enforce=alias,
+             defines=['CV_NO_HEAP_PRIMS 1'] + list(extra_defines), unwind=4, under_contract=[N[alias].strip('^$').replace('\\', '')])
+    d.update(kw)
+    return d
+DAWT = {'DAWT': N['d_ctor'] + '#0'}
+CFAT = {'CFA': N['cfa_ctor'] + '#0'}
+UNITS = [
+    unit('cb_ctor', 'cb_ctor', uses=('cb_invoke',)),
+    unit('cb_invoke', 'cb_invoke', uses=('user_cb', 'cb_ctor_fn'), extra_defines=['CV_HAS_cb_invoke_u 1'], extra_roots=['cb_ctor_fn', 'cb_dtors'], extra_globals=VT_CB),
+    unit('cb_invoke_storage', 'cb_invoke', uses=('user_cb', 'cbs_ctor_fn', 'st_dealloc', 'st_alloc'), extra_defines=['CV_HAS_cb_invoke_u 1', 'CV_C18_STORAGE 1'], extra_roots=['cbs_ctor_fn', 'cbs_dtors', 'cb_dtors'], harness='h_cb_invoke', extra_globals=dict(VT_CB, **VT_CBS)),
+    unit('make_promise', 'make_promise', uses=('user_cb', 'cb_invoke')),
+    unit('make_promise_st', 'make_promise_st', uses=('user_cb', 'cb_invoke', 'st_alloc', 'st_dealloc'), extra_globals=VT_CBS),
+    unit('discard', 'discard', uses=('fac_call', 'fc_subscribe', 'd_fin', 'd_ctor'), ptypes=DAWT),
+    unit('d_fin', 'd_fin', uses=('d_dtor',), ptypes={'DAWT': N['d_dtor'] + '#0'}, extra_defines=['CV_HAS_d_fin_u 1']),
+    unit('cfa_ctor', 'cfa_ctor', uses=('cfa_wakeup', 'obj_done'), ptypes=CFAT),
+    unit('cfa_wakeup', 'cfa_wakeup', uses=('obj_done',), extra_types={'CFA': 'cocls::call_fn_future_awaiter<&c18_obj::done>'}, extra_defines=['CV_HAS_cfa_wakeup_u 1']),
+    unit('cfa_shift', 'cfa_shift', uses=('cfa_wakeup', 'obj_done', 'fac_call', 'fc_subscribe'), ptypes={'CFA': N['cfa_shift'] + '#0'}, extra_roots=['cfa_wakeup']),
+    unit('conv_m_ctor', 'conv_m_ctor', uses=('conv_m_invoke', 'ctx_conv', 'pl_call_val', 'pl_call_exc', 'pl_dtor', 'fc_subscribe'), ptypes={'CONVM': N['conv_m_ctor'] + '#0'}),
+    unit('conv_f_ctor', 'conv_f_ctor', uses=('conv_f_invoke', 'conv_free', 'pl_call_val', 'pl_call_exc', 'pl_dtor', 'fc_subscribe'), ptypes={'CONVF': N['conv_f_ctor'] + '#0'}),
+    unit('conv_p_ctor', 'conv_p_ctor', uses=('conv_p_invoke', 'ctx_conv_p', 'pl_call_val', 'pl_call_exc', 'pl_dtor', 'fc_subscribe'), ptypes={'CONVP': N['conv_p_ctor'] + '#0'}),
+    unit('conv_m_invoke', 'conv_m_invoke', uses=('ctx_conv', 'pl_call_val', 'pl_call_exc', 'pl_dtor', 'fc_subscribe'), extra_defines=['CV_HAS_conv_m_invoke_u 1']),
+    unit('conv_f_invoke', 'conv_f_invoke', uses=('conv_free', 'pl_call_val', 'pl_call_exc', 'pl_dtor', 'fc_subscribe'), extra_defines=['CV_HAS_conv_f_invoke_u 1']),
+    unit('conv_p_invoke', 'conv_p_invoke', uses=('ctx_conv_p', 'pl_call_val', 'pl_call_exc', 'pl_dtor', 'fc_subscribe'), extra_defines=['CV_HAS_conv_p_invoke_u 1']),
+    unit('conv_shift', 'conv_shift', uses=('fac_call', 'fc_subscribe')),
+    unit('conv_call', 'conv_call'),
+    unit('hlp_shift', 'hlp_shift', uses=('fac_call', 'fc_subscribe')),
+]
+CHT = 'std::__n4861::coroutine_handle<void>'
+AP = {'ap_aw_load': r'^std::atomic<cocls::awaiter\*>::load\(std::memory_order\) const$', 'ap_aw_xchg': r'^std::atomic<cocls::awaiter\*>::exchange\(',
+      'ap_aw_cas': r'^std::atomic<cocls::awaiter\*>::compare_exchange_weak\(cocls::awaiter\*&, cocls::awaiter\*, std::memory_order, std::memory_order\)$',
+      'ap_aw_store': r'^std::atomic<cocls::awaiter\*>::store\(cocls::awaiter\*, std::memory_order\)$',
+      'ap_fu_load': r'^std::atomic<cocls::future<int>\*>::load\(std::memory_order\) const$', 'ap_fu_xchg': r'^std::atomic<cocls::future<int>\*>::exchange\(',
+      'ap_fu_assign': r'^std::atomic<cocls::future<int>\*>::operator=\(cocls::future<int>\*\)$'}
+FRAMES = ('CV_FRAME_KINDS X(1, S__ZN5cocls8_details19callback_await_coroINS_15default_storageENS_6futureIiEE13c18_record_fnJR6c18_opEEENS_14with_allocatorIT_NS_5asyncIvEEEERS9_T1_DpT2__Frame) '
+          'X(2, S__ZN5cocls8_details19callback_await_coroI17c18_count_storageNS_6futureIiEE13c18_record_fnJR6c18_opEEENS_14with_allocatorIT_NS_5asyncIvEEEERS9_T1_DpT2__Frame)')
+D_TYPES = {'CH': CHT, 'DQCH': 'std::deque<%s, std::allocator<%s > >' % (CHT, CHT), 'AWT': 'cocls::awaiter', 'FUT': 'cocls::future<int>',
+           'ATOM_AW': 'std::atomic<cocls::awaiter *>', 'ATOM_FU': 'std::atomic<cocls::future<int> *>'}
+D_TYPES_L = dict(D_TYPES, FUTL='cocls::future<long>', ATOM_FUL='std::atomic<cocls::future<long> *>')
+D_GLOBALS = {'FRAME_KIND': 'g_frame_kind', 'G_REC': 'g_rec', 'G_ST_ALLOCS': 'g_st_allocs', 'G_ST_DEALLOCS': 'g_st_deallocs', 'G_ST_BLOCK': 'g_st_block', 'G_ST_FREED': 'g_st_freed',
+             'G_ST_ALLOC_SIZE': 'g_st_alloc_size', 'G_ST_DEALLOC_SIZE': 'g_st_dealloc_size'}
+D_BOUNDARY = [r'^std::deque<std::__n4861::coroutine_handle<void>', r'^std::atomic<bool>::wait\(', r'^std::atomic<bool>::notify'] + list(AP.values())
+def drive(before, counting):
+    what = 'callback_await%s on a future<int>, %s; symbolic outcome (value / exception / promise dropped), symbolic value and error code; single thread, no spurious CAS failure' % (
+            '_alloc with a counting storage' if counting else ' (default_storage)', 'resolved before registration' if before else 'resolved after registration (same thread)')
+    return dict(name='drive_cbawait_%s_%s' % ('before' if before else 'after', 'counting' if counting else 'default'), driver='c18_drive.cpp',
+                roots=[r'^c18_drive$'], names={}, names_opt=dict(AP), types=D_TYPES, globals=D_GLOBALS, boundary=D_BOUNDARY,
+                lib=['rt_core.c', 'rt_atomic_seq.c', 'model_dq_ring.c', 'model_heap_frames.c'], spec=['C18/h_drive.c'], harness='h_drive',
+                defines=['CV_NO_HEAP_PRIMS 1', 'CV_NO_SPURIOUS_CAS 1', FRAMES, 'DRIVE_cbawait 1', 'DRIVE_BEFORE %d' % before, 'DRIVE_COUNTING %d' % counting],
+                unwind=6, object_bits=11, kind='bounded', timeout=300, bounded=what, under_contract=[])
+UNITS += [drive(b, c) for c in (0, 1) for b in (1, 0)]
+def compose(kind, root, what, before=None, counting=None, types=D_TYPES, extra_globals=None):
+    nm = 'drive_%s' % kind + ('' if before is None else ('_before' if before else '_after')) + ('' if counting is None else ('_storage' if counting else '_heap'))
+    g = dict(D_GLOBALS); g.update(extra_globals or {})
+    return dict(name=nm, driver='c18_drive.cpp', roots=[root], names={}, names_opt=dict(AP, probe=r'^c18_probe$'), types=types, globals=g, boundary=D_BOUNDARY + [r'^c18_probe$'],
+                lib=['rt_core.c', 'rt_atomic_seq.c', 'model_dq_ring.c', 'model_heap_frames.c'], spec=['C18/h_drive.c'], harness='h_drive',
+                defines=['CV_NO_HEAP_PRIMS 1', 'CV_NO_SPURIOUS_CAS 1', 'CV_FRAME_KINDS', 'DRIVE_%s 1' % kind, 'DRIVE_BEFORE %d' % (before or 0), 'DRIVE_COUNTING %d' % (counting or 0)],
+                unwind=6, object_bits=11, kind='bounded', timeout=300, under_contract=[],
+                bounded=what + ('' if before is None else (', resolved before registration' if before else ', resolved after registration (same thread)')) + '; symbolic outcome (value / exception / promise dropped) and values; single thread')
+UNITS += [compose('mp', r'^c18_drive_mp$', 'composition: make_promise(%s) + real promise resolution' % ('storage' if c else 'heap'), counting=c) for c in (0, 1)]
+UNITS += [compose('discard', r'^c18_drive_discard$', 'composition: discard() of a real future<int>', before=b) for b in (1, 0)]
+UNITS += [compose('cfa', r'^c18_drive_cfa$', 'composition: call_fn_future_awaiter << real future<int>', before=b) for b in (1, 0)]
+UNITS += [compose('conv', r'^c18_drive_conv$', 'composition: future_conv<member fn> << real future<int>, converter returns or throws (symbolic)', before=b, types=D_TYPES_L,
+                  extra_globals={'G_LREC': 'g_lrec', 'G_CONV_CALLS': 'g_conv_calls'}) for b in (1, 0)]
 META = {}
